@@ -35,6 +35,12 @@ def main():
     states.append(self.state)
     return r
   histories.Recorder._finish = fin
+  origp = histories.Recorder.peer_event
+  def pe(self, *a, **kw):
+    r = origp(self, *a, **kw)
+    states.append(self.state)
+    return r
+  histories.Recorder.peer_event = pe
   rec = histories.run_history(seed, profile=profile, n_bundles=n)
   evs = rec.events
   def show(i):
